@@ -865,6 +865,13 @@ func judgeReconf(r *vh.Run, c reconfCase) {
 				continue
 			}
 			if mm := trafficAgainst(m, cur, c.Msgs, &n); mm != nil {
+				// a configuration that diverges even when freshly installed on its own is a
+				// tree-semantics divergence, not a reconfiguration one: report it as such
+				k := 0
+				if checkTree(cur, c.Msgs, nil, &k) != nil {
+					judgeTree(r, treeCase{Kind: "tree", Stream: c.Stream, Idx: c.Idx, Tree: cur, Msgs: c.Msgs})
+					return
+				}
 				sig := "C12:reconfig:after-" + last + ":" + mm.Kind
 				r.ViolationCase(c, sig, fmt.Sprintf("step %d: after a %s POST the traffic does not show exactly the active configuration's effect: %s", i, last, mm.String()),
 					map[string]interface{}{"active_config": cur.Describe(), "active_json": cur.JSON()})
@@ -1090,6 +1097,14 @@ func runConc(r *vh.Run, c concCase) {
 		o := outcome{hdr: cfgx.HeaderString(st.ReqH), errs: strings.Join(sortedCopy(errs), "\n")}
 		reqExp[k], reqState[k] = o, st
 		return o, st
+	}
+	// configurations that diverge on their own are reported as tree-semantics divergences
+	for _, t := range cfgs {
+		k := 0
+		if checkTree(t, msgs, nil, &k) != nil {
+			judgeTree(r, treeCase{Kind: "tree", Stream: c.Stream, Idx: c.Idx, Tree: t, Msgs: msgs})
+			return
+		}
 	}
 	overl, checked := 0, 0
 	for g := range calls {
